@@ -1,5 +1,139 @@
 import Dagrt.Props.C01
+import Dagrt.Props.C08
+/-!
+# C11 — a failing user function leaves the stepper consistent and resumable
+
+Model: `StepLoop.abortedStep` — when the exception leaves the step, a prefix `pre` of the order the
+back end uses has been executed; `run_single_step`'s `finally` (interpreter) / the end of the phase
+function's frame (generated code) discards the per-step variables; the successor phase was stored
+before the body ran.  The effect of the statement that made the failing call is not part of the
+prefix (for a plain assignment or call statement the value is computed before anything is
+assigned; for a looped assignment the iterations before the failing one have happened — that
+partial effect is covered by the oracle on the real back ends, not by these theorems).
+
+The exception itself is not a value of the model ("the same exception reaches the caller" is
+checked on the real objects on every run).
+-/
 namespace Dagrt.C11
-open Dagrt Dagrt.StepLoop
-theorem placeholder : allTrue [] = true := rfl
+open Dagrt Dagrt.Sem Dagrt.Builder Dagrt.StepLoop
+
+/-- no per-step variable is visible after the failed step -/
+theorem no_temporaries_after_abort (F : Funs) (ph : Phase) (pre : List Nat) (s : RunState) (x : Name)
+    (hx : isPersistent x = false) : (abortedStep F ph pre s).σ x = .val .none := by
+  simp [abortedStep, persist, hx]
+
+/-- executing statements changes a variable only if one of them declares it as written -/
+theorem flat_frame (F : Funs) (stmts : List Stmt) (x : Name) : ∀ (pre : List Nat) (σ : Store),
+    (∀ i ∈ pre, ∀ st, stmts[i]? = some st → x ∉ effW st) → flatExec F stmts pre σ x = σ x := by
+  intro pre
+  induction pre with
+  | nil => intro σ _; rfl
+  | cons i pre ih =>
+    intro σ h
+    unfold flatExec
+    simp only [List.foldl_cons]
+    have h' := ih (match stmts[i]? with | some s => (execI F s σ).σ | none => σ)
+      (fun k hk st hst => h k (List.mem_cons_of_mem _ hk) st hst)
+    unfold flatExec at h'
+    refine h'.trans ?_
+    cases hs : stmts[i]? with
+    | none => rfl
+    | some st => exact C08.stmt_frame F st σ x (h i List.mem_cons_self st hs)
+
+theorem persistent_ne_exec {x : Name} (hx : isPersistent x = true) : x ≠ EXEC := by
+  intro h; subst h
+  have : isPersistent EXEC = false := by decide +kernel
+  rw [this] at hx; exact Bool.noConfusion hx
+
+/-- **unchanged unless written**: a persistent variable that no executed statement declares as
+    written holds its value from before the step -/
+theorem unwritten_persistent_unchanged (F : Funs) (ph : Phase) (pre : List Nat) (s : RunState) (x : Name)
+    (hx : isPersistent x = true)
+    (h : ∀ i ∈ pre, ∀ st, (flatStmts ph.ops)[i]? = some st → x ∉ effW st) :
+    (abortedStep F ph pre s).σ x = s.σ x := by
+  simp only [abortedStep, persist, hx, cond_true]
+  rw [flat_frame F _ x pre _ h]
+  simp [startStep, Store.set, persistent_ne_exec hx, persist, hx]
+
+/-- **every value is justified**: after the failed step a persistent variable holds its value from
+    before the step, or a statement that was executed in this step assigns to it -/
+theorem persistent_value_justified (F : Funs) (ph : Phase) (pre : List Nat) (s : RunState) (x : Name)
+    (hx : isPersistent x = true) :
+    (abortedStep F ph pre s).σ x = s.σ x ∨
+      ∃ i ∈ pre, ∃ st, (flatStmts ph.ops)[i]? = some st ∧ x ∈ effW st := by
+  by_cases h : ∃ i ∈ pre, ∃ st, (flatStmts ph.ops)[i]? = some st ∧ x ∈ effW st
+  · exact Or.inr h
+  · left
+    apply unwritten_persistent_unchanged F ph pre s x hx
+    intro i hi st hst hmem
+    exact h ⟨i, hi, st, hst, hmem⟩
+
+/-- **writes that depend on the failed call did not happen**: if the back end's order is admissible
+    (`π = pre ++ j :: post`, `j` the statement that made the failing call) and every statement
+    that writes `x` is `j` itself or depends on `j` through recorded dependencies, `x` is unchanged -/
+theorem dependent_writes_unchanged (F : Funs) (ph : Phase) (pre post : List Nat) (j : Nat) (s : RunState)
+    (x : Name) (hx : isPersistent x = true)
+    (hadm : C01.Admissible ph.ops (pre ++ j :: post))
+    (hdep : ∀ w st, (flatStmts ph.ops)[w]? = some st → x ∈ effW st → Reach (Builder.run ph.ops).core.D j w) :
+    (abortedStep F ph pre s).σ x = s.σ x := by
+  apply unwritten_persistent_unchanged F ph pre s x hx
+  intro w hw st hst hmem
+  have hr := hdep w st hst hmem
+  have hnd : (pre ++ j :: post).Nodup := (List.Perm.nodup_iff hadm.1).mpr List.nodup_range
+  obtain ⟨p1, p2, hsplit⟩ := List.append_of_mem hw
+  have hπ : pre ++ j :: post = p1 ++ w :: (p2 ++ j :: post) := by rw [hsplit]; simp
+  rcases reach_before hadm.2 hr p1 (p2 ++ j :: post) hπ with e | hmem'
+  · -- j = w would occur twice
+    subst e
+    rw [hπ] at hnd
+    have := List.nodup_append.mp hnd
+    have h3 := (List.nodup_cons.mp this.2.1).1
+    exact h3 (by simp)
+  · rw [hπ] at hnd
+    have := (List.nodup_append.mp hnd).2.2 j hmem' j (by simp)
+    exact this rfl
+
+/-- **resumable**: how a stepper continues depends only on its persistent variables and its next
+    phase — whatever else the failed step left behind is irrelevant, so stepping on equals
+    stepping a fresh stepper that was started from a snapshot of that state and phase -/
+theorem step_depends_on_persistent_only (body : Phase → Store → Boxed) (ps : List Phase) (σ₁ σ₂ : Store) (p : Name)
+    (h : persist σ₁ = persist σ₂) (hp : (findPhase ps p).isSome) :
+    stepWith body ps ⟨σ₁, p⟩ = stepWith body ps ⟨σ₂, p⟩ := by
+  unfold stepWith
+  cases hf : findPhase ps p with
+  | none => simp [hf] at hp
+  | some ph => simp [startStep, h]
+
+theorem get_of_persist {σ₁ σ₂ : Store} (h : persist σ₁ = persist σ₂) (x : Name) (hx : isPersistent x = true) :
+    σ₁.get x = σ₂.get x := by
+  have := congrFun h x
+  simp only [persist, hx, cond_true] at this
+  simp [Store.get, this]
+
+/-- … for whole runs: every end time, step limit and number of passes — the same events and the same
+    states after every step -/
+theorem resume_eq_fresh (body : Phase → Store → Boxed) (ps : List Phase) (σ₁ σ₂ : Store) (p : Name)
+    (h : persist σ₁ = persist σ₂) (hp : (findPhase ps p).isSome)
+    (tEnd : Option Int) (maxSteps : Option Nat) (fuel n : Nat) :
+    runLoop (stepWith body ps) tEnd maxSteps fuel n ⟨σ₁, p⟩ =
+      runLoop (stepWith body ps) tEnd maxSteps fuel n ⟨σ₂, p⟩ := by
+  cases fuel with
+  | zero => simp [runLoop]
+  | succ fuel =>
+    have hs : stopNow ⟨σ₁, p⟩ tEnd maxSteps n = stopNow ⟨σ₂, p⟩ tEnd maxSteps n := by
+      have ht : isPersistent "<t>" = true := by decide +kernel
+      simp [stopNow, reached, get_of_persist h "<t>" ht]
+    have hstep := step_depends_on_persistent_only body ps σ₁ σ₂ p h hp
+    unfold runLoop
+    rw [hs, hstep]
+
+/-- in particular: the state a failed step leaves behind and a snapshot of its persistent variables -/
+theorem resume_after_abort_eq_fresh_from_snapshot (F : Funs) (body : Phase → Store → Boxed) (ps : List Phase)
+    (ph : Phase) (pre : List Nat) (s : RunState) (snapshot : Store)
+    (hsnap : persist snapshot = persist (abortedStep F ph pre s).σ) (hp : (findPhase ps ph.next).isSome)
+    (tEnd : Option Int) (maxSteps : Option Nat) (fuel n : Nat) :
+    runLoop (stepWith body ps) tEnd maxSteps fuel n (abortedStep F ph pre s) =
+      runLoop (stepWith body ps) tEnd maxSteps fuel n ⟨snapshot, ph.next⟩ :=
+  resume_eq_fresh body ps _ _ ph.next hsnap.symm hp tEnd maxSteps fuel n
+
 end Dagrt.C11
